@@ -236,6 +236,7 @@ class World:
         finally:
             signal.setitimer(signal.ITIMER_REAL, 0)
             sys.stdout = old
+            _close_figures()
             self._written = '\x00'.join(st.text() for st in streams)
 
     def _callable(self, rec, recv):
@@ -584,6 +585,16 @@ class World:
         return {'r': 'ok', 'n': n}
 
 
+def _close_figures():
+    plt = sys.modules.get('matplotlib.pyplot')
+    if plt is not None:
+        try:
+            if plt.get_fignums():
+                plt.close('all')
+        except Exception:                                            # noqa: BLE001
+            pass
+
+
 def _process_globals():
     """Process-wide settings a call has no business changing: a changed print precision or
     error mode makes later, unrelated calls return different results."""
@@ -670,7 +681,7 @@ BAD_KINDS = ['sc', 'v2', 'v3', 'v4', 'v6', 'R2', 'T2', 'R3', 'T3', 'm33', 'm66',
 
 def kind_category(kind):
     """Coarse Python-type category of the values a kind produces."""
-    if kind in ('unit', 'order', 'orient', 'out', 'str', 'fmt'):
+    if kind in ('unit', 'order', 'orient', 'out', 'str', 'fmt', 'color'):
         return 'str'
     if kind == 'stream':
         return 'stream'
@@ -771,6 +782,10 @@ def make_spec(kind, world, cfg, rng, recv_cls, recv_ref=None):
         return {'lit': rng.choice([1e-9, 1e-6])}
     if kind == 'stream':
         return {'special': 'stream'}
+    if kind == 'false':
+        return {'lit': False}
+    if kind == 'color':
+        return {'lit': rng.choice(['red', 'blue', 'k'])}
     if kind == 'fmt':
         return {'lit': rng.choice(['{:8.2g}', '{:.3f}', '{:10.4f}'])}
     if kind == 'idx':
@@ -877,7 +892,7 @@ def gen_call(entry, world, cfg, rng, recv_ref=None, multi=False, single=False):
         else:
             spec = make_spec(kind, world, cfg, rng, recv_cls, recv_ref)
         prev = (kind, spec)
-        if positional and not optional and pname != 'file':
+        if positional and not optional and pname not in cat.KEYWORD_ONLY:
             args.append(spec)
             slot_kinds[('a', len(args) - 1)] = kinds
         else:
@@ -1129,8 +1144,9 @@ ASSUMPTIONS = [
     'exempt from the frame condition: the receiver of append/extend/insert/pop/clear/reverse/'
     '__setitem__/__delitem__, the left operand of augmented operators, and heap values that reach '
     'that same Python object',
-    'plotting/animation entry points and helpers taking callables (binop, unop, arghandler), sort and '
-    'remove are not exercised',
+    'animation entry points (they block on a display loop) and helpers taking callables (binop, unop, '
+    'arghandler), sort and remove are not exercised; static plotting functions run under the Agg '
+    'backend with block=False and every figure is closed after the call',
     're-issued calls use the very same, verified-unchanged input objects (or deep copies when every '
     'array is C-contiguous and owns its data); results must have identical structure, dtype and '
     'shape and values equal to rtol 1e-9 (scipy.linalg.logm behind trlog2 is not bit-reproducible '
